@@ -1405,6 +1405,21 @@ def settled_stage(chk, rigbox, n_cases):
         elif chk.rng.random() < 0.28:
             steps, drained = gen_stepwise_schedule(chk.rng)
             chk.dist("settled:stepwise-hand-over")
+            # loop-side steps between a snapshot and the last hand-over of its broadcast
+            inside, ob, conn = set(), 0, 0
+            for st in steps:
+                if st[0] == "connect":
+                    conn += 1
+                elif st[0] == "disconnect":
+                    conn -= 1
+                if st[0] == "snap":
+                    ob = conn
+                elif st[0] == "handover":
+                    ob = max(0, ob - 1)
+                elif ob > 0:
+                    inside.add(st[0])
+            for kk in sorted(inside):
+                chk.dist(f"settled:stepwise:{kk}-during-hand-over")
         else:
             repeats = chk.rng.random() < 0.12
             steps, drained = gen_repeat_schedule(chk.rng) if repeats else gen_schedule(chk.rng)
